@@ -159,7 +159,7 @@ def R.getstring (r : R) : Nat → List Nat × Int × R
   | 0 => ([], 0, r)
   | k+1 =>
     let (c, e, r1) := r.getbits 8
-    if e < 0 then ([c &&& 255], e, r1)
+    if e < 0 then ([], e, r1)           -- the string ends where the data did
     else
       let (cs, e2, r2) := R.getstring r1 k
       ((c &&& 255) :: cs, (if k = 0 then e else e2), r2)
